@@ -3,11 +3,12 @@
  "name": "write_buffer",
  "props": ["C15", "C06"],
  "level": "U/iter",
- "tier": "wip",
+ "tier": "thorough",
  "harness": "h_write_buffer",
  "enforce": ["write_xattrs_to_buffer"],
  "replace": ["ext2fs_ext_attr_hash_entry2"],
  "loop_contracts": true,
+ "backend": "cadical",
  "unwind": 16,
  "unwind_reason": "the only loop is closed by its in-place loop contract; the bound serves the DFCC library's write-set loops (11 assigns targets; unwinding assertions on)",
  "functions": ["lib/ext2fs/ext_attr.c:write_xattrs_to_buffer"],
@@ -20,7 +21,26 @@
  "native": false
 }
 */
+/* VERIF-UNIT
+{
+ "name": "write_buffer_small",
+ "props": ["C15", "C06"],
+ "level": "B(2)",
+ "tier": "thorough",
+ "harness": "h_write_buffer_small",
+ "replace": ["ext2fs_ext_attr_hash_entry2"],
+ "unwind": 10,
+ "unwind_reason": "bounded unit: at most 2 attributes, names <= 3 bytes, values <= 8 bytes, 60-byte region; the loop of write_xattrs_to_buffer (<= 2), libc strlen (<= 4) and the harness loops (<= 8) are unwound, libc memcpy / memset are CBMC's built-in models; unwinding assertions on",
+ "functions": ["lib/ext2fs/ext_attr.c:write_xattrs_to_buffer"],
+ "assumes": ["BOUNDED: count <= 2, names <= 3 bytes, values <= 8 bytes, region of exactly 60 bytes, value_offset_correction 0 or 32",
+             "precondition = the caller's space check with the REAL sum: sum of XSPEC_NEED over the attributes + 4 <= 60 (no per-iteration hypothesis here)",
+             "ext2fs_ext_attr_hash_entry2 by contract (hash value arbitrary; its definition is proved in parsers/xattr_hash_entry*)"],
+ "native": false
+}
+*/
+#ifdef VERIF_UNIT_write_buffer
 #define XAT_UF_STRLEN
+#endif
 #include "xat_common.h"
 
 struct in_s {
@@ -28,11 +48,14 @@ struct in_s {
 	int count, write_hash;
 	unsigned long long budget;
 	long rc_hash;
+	/* small unit */
+	struct { unsigned char name_len; char name[4]; unsigned char value_len; unsigned char value[8]; unsigned int ea_ino; unsigned char idx; } at[2];
+	unsigned int hashval;
 };
 struct in_s IN;
 #include "verif_in.h"
 
-#ifndef VERIF_NATIVE
+#if !defined(VERIF_NATIVE) && defined(VERIF_UNIT_write_buffer)
 void *memcpy(void *dst, const void *src, size_t n)
 {
 	__CPROVER_assert(__CPROVER_w_ok(dst, n), "CHECK:memcpy destination range inside the region");
@@ -47,7 +70,8 @@ void *memset(void *dst, int c, size_t n)
 }
 #endif
 
-/* ---- ghost steps of the named anchors (see the hook in ext_attr.c for the registers) ---- */
+/* ---- ghost steps of the named anchors (see the hook in ext_attr.c for the registers); only for the U/iter unit ---- */
+#ifdef VERIF_UNIT_write_buffer
 #define WB_OFF(p) ((unsigned long long)(__CPROVER_POINTER_OFFSET(p) - __CPROVER_POINTER_OFFSET(entries_start)))
 /*
  * start of an iteration.  The loop contract havocs the cursors x, e, end; CBMC then knows their values only through
@@ -80,6 +104,7 @@ void *memset(void *dst, int c, size_t n)
 				     "CHECK:entry table + terminator end below the value area (no overlap)"); \
 		    __CPROVER_assert(write_hash || verif_g7 || WB_ENT->e_hash == 0, "CHECK:no hash asked: e_hash is 0"); \
 		    verif_g2 = WB_OFF(e); verif_g3 = WB_OFF(end); verif_g4++;)
+#endif
 
 struct ext2_xattr;
 static errcode_t write_xattrs_to_buffer(ext2_filsys fs, struct ext2_xattr *attrs, int count, void *entries_start,
@@ -96,6 +121,7 @@ errcode_t ext2fs_ext_attr_hash_entry2(ext2_filsys fs, struct ext2_ext_attr_entry
 	REQUIRES(entry->e_value_inum != 0 || entry->e_value_size == 0 ||
 		 __CPROVER_r_ok(data, 4ul * PSPEC_XATTR_NWORDS(entry->e_value_size)))
 	ENSURES(RET == IN.rc_hash)
+	ENSURES(RET != 0 || *hash == IN.hashval)
 	ASSIGNS(*hash);
 
 #include "lib/ext2fs/ext_attr.c"
@@ -125,5 +151,58 @@ void h_write_buffer(void)
 		CHECK(r == IN.rc_hash, "the only error is the entry hash's");
 		REACH("hash-error");
 	}
+	REACH("end");
+}
+
+/* ---- bounded unit: the whole loop with real strings, real copies and the real sum ---- */
+#define SB 60	/* 2 x (20-byte entry + 8-byte value) + terminator fill it exactly */
+void h_write_buffer_small(void)
+{
+	LOAD_IN();
+	ASSUME(IN.count >= 0 && IN.count <= 2 && (IN.correction == 0 || IN.correction == 32) && IN.rc_hash >= 0);
+	struct ext2_xattr *a = malloc(2 * sizeof(struct ext2_xattr));
+	unsigned char *buf = malloc(SB);
+	ASSUME(a != 0 && buf != 0);
+	unsigned long long sum = 0;
+	for (int i = 0; i < 2; i++) {
+		ASSUME(IN.at[i].name_len <= 3 && IN.at[i].value_len <= 8);
+		for (int j = 0; j < 4; j++)
+			ASSUME((IN.at[i].name[j] == 0) == (j == IN.at[i].name_len) || j > IN.at[i].name_len);
+		a[i].name = IN.at[i].name; a[i].short_name = IN.at[i].name; a[i].name_index = IN.at[i].idx;
+		a[i].value = IN.at[i].value; a[i].value_len = IN.at[i].value_len; a[i].ea_ino = IN.at[i].ea_ino;
+		if (i < IN.count) sum += XSPEC_NEED(IN.at[i].name_len, IN.at[i].value_len, IN.at[i].ea_ino);
+	}
+	ASSUME(sum + 4 <= SB);		/* the caller's space check */
+	errcode_t r = write_xattrs_to_buffer(0, a, IN.count, buf, SB, IN.correction, IN.write_hash);
+	if (r) {
+		CHECK(r == IN.rc_hash, "the only error is the entry hash's");
+		REACH("hash-error");
+		return;
+	}
+	/* parse the region by the on-disk format */
+	unsigned int eo = 0, vo = SB;
+	for (int i = 0; i < 2; i++) {
+		if (i >= IN.count) break;
+		const struct ext2_ext_attr_entry *e = (const struct ext2_ext_attr_entry *)(buf + eo);
+		CHECK(e->e_name_len == IN.at[i].name_len && e->e_name_index == IN.at[i].idx && e->e_value_size == IN.at[i].value_len &&
+		      e->e_value_inum == IN.at[i].ea_ino, "entry i at ascending offset: name length, index, value size, EA inode");
+		for (unsigned int k = 0; k < 3; k++)
+			if (k < IN.at[i].name_len) CHECK(buf[eo + 16 + k] == (unsigned char)IN.at[i].name[k], "name bytes follow the header");
+		if (IN.at[i].ea_ino) {
+			CHECK(e->e_value_offs == 0, "EA-inode value: offset 0, no bytes in the value area");
+			CHECK(e->e_hash == IN.hashval, "EA-inode value: the entry hash is always computed");
+		} else {
+			vo -= (unsigned int)XSPEC_VALUE_SIZE(IN.at[i].value_len);
+			CHECK(e->e_value_offs == vo + IN.correction, "inline value at descending offsets (+ correction)");
+			for (unsigned int k = 0; k < 8; k++)
+				if (k < IN.at[i].value_len) CHECK(buf[vo + k] == IN.at[i].value[k], "value bytes copied");
+			CHECK(e->e_hash == (IN.write_hash ? IN.hashval : 0), "hash written exactly when asked");
+		}
+		eo += (unsigned int)XSPEC_ENTRY_LEN(IN.at[i].name_len);
+	}
+	CHECK(eo + 4 <= vo, "entry table + terminator end below the value area");
+	CHECK(buf[eo] == 0 && buf[eo + 1] == 0 && buf[eo + 2] == 0 && buf[eo + 3] == 0, "terminator present");
+	if (IN.count == 2 && !IN.at[0].ea_ino && !IN.at[1].ea_ino && IN.at[0].value_len == 8 && IN.at[1].value_len == 5) REACH("two-inline-values");
+	if (IN.count == 2 && sum + 4 == SB) REACH("exactly-full");
 	REACH("end");
 }
